@@ -64,6 +64,26 @@ var c16ScaleFams = []c16ScaleFam{
 		return c16H + "let f (x:int) =\n" + strings.Repeat("  let y = x\n", n) + "  x\n"
 	}, 60000},
 	{"tuple-too-wide", func(n int) string { return c16H + "let f () = (" + strings.Repeat("1, ", n) + "1)\n" }, 400000},
+	{"record-clique", func(n int) string {
+		// n records of one type group, each with a callback over all the others: every walk over such a type
+		// must be linear in its size, not a walk over all paths
+		var b strings.Builder
+		b.WriteString(c16H)
+		for i := 1; i <= n; i++ {
+			kw := "and"
+			if i == 1 {
+				kw = "type"
+			}
+			fmt.Fprintf(&b, "%s K%d = {F%d: ", kw, i, i)
+			for j := 1; j <= n; j++ {
+				if j != i {
+					fmt.Fprintf(&b, "K%d->", j)
+				}
+			}
+			b.WriteString("int}\n")
+		}
+		return b.String() + "\nlet f (k:K1) = 1\n"
+	}, 11},
 	{"pipe-chain", func(n int) string {
 		return c16H + "let id (x:int) = x\n\nlet f (x:int) = x" + strings.Repeat(" |> id", n) + "\n"
 	}, 400000},
@@ -80,12 +100,12 @@ func c16Scale(c *Ctx) {
 		os.MkdirAll(dir, 0o755)
 		defer os.RemoveAll(dir)
 		MustWrite(filepath.Join(dir, "m.fo"), fam.Gen(fam.N))
-		r := Run(dir, 300*time.Second, 6144, []string{"GOMAXPROCS=2"}, filepath.Join(c.Bin, "fc"), mini, "m.fo")
+		r := Run(dir, 300*time.Second, 12288, []string{"GOMAXPROCS=2"}, filepath.Join(c.Bin, "fc"), mini, "m.fo")
 		out := r.Stdout + r.Stderr
 		c.Count("scale_family=" + fam.Name)
 		c.Eval(fmt.Sprintf("scale:%s:%d", fam.Name, fam.N), true)
 		rep := map[string]any{"family": fam.Name, "size": fam.N, "input_prefix": trunc(fam.Gen(40), 400), "fc_exit": r.Exit, "fc_output": trunc(out, 1500),
-			"how": fmt.Sprintf("the family's generator at size %d (harness/c16_scale.go), fc mini.foi m.fo under timeout 300 s, ulimit -v 6 GB", fam.N)}
+			"how": fmt.Sprintf("the family's generator at size %d (harness/c16_scale.go), fc mini.foi m.fo under timeout 300 s, ulimit -v 12 GB", fam.N)}
 		_, gerr := os.Stat(filepath.Join(dir, "gen_m.go"))
 		switch {
 		case r.TimedOut:
